@@ -180,8 +180,8 @@ func (g *G) postfix() {
 			g.p("]")
 		case 6:
 			g.p(".")
-			if g.opt() {
-				// directly after "." a reserved keyword is a field name
+			if g.afterIdentLikeBeforeDot() && g.opt() {
+				// directly after "." that follows an identifier, parameter, ")" or "]", a reserved keyword is a field name
 				g.emit(Tok{Text: "select", Class: ID, Val: "select"})
 			} else {
 				g.id()
@@ -571,6 +571,19 @@ func (g *G) structField() {
 func init() {
 	root("expr", "expr", func(g *G) { g.Expr() })
 	root("type", "type", func(g *G) { g.Type() })
+}
+
+// afterIdentLikeBeforeDot: the "." just emitted follows an identifier-like token.
+func (g *G) afterIdentLikeBeforeDot() bool {
+	n := len(g.src)
+	if n < 2 || g.src[n-1].Text != "." {
+		return false
+	}
+	save := g.src
+	g.src = g.src[:n-1]
+	ok := g.afterIdentLike()
+	g.src = save
+	return ok
 }
 
 // afterIdentLike reports whether the previous source token is identifier-like
